@@ -85,6 +85,7 @@ def jobs(tier, seed):
             for ctx in ("str", "dl"):
                 out.append({"id": f"literal/{base}/{n}/{ctx}", "fam": "literal", "base": base, "n": n, "ctx": ctx})
     out.append({"id": "for-bounds", "fam": "for"})
+    out.append({"id": "operand-named-a", "fam": "named-a"})
     return out
 
 
@@ -223,6 +224,11 @@ def run(spec, cx):
         if r[0] == "ok":
             return ("bytes", [(a, b) for a, b in r[1]])
         return ("rejected", "error-string" if r[0] == "error" else type(r[1]).__name__)
+    if fam == "named-a":
+        # identifiers denote their symbol's value also when the identifier is `a` / `A` (asl / lsr / rol / ror / inc / dec have an accumulator form)
+        a = cx.int("a", 0, 0xFFFF)
+        r = assemble("*=0x8000\nA := 0x34\nasl a\nlsr a ; c\nrol a\nror a\ninc a\ndec a\nasl A\n.dw a\n", {"a": a})
+        return ("bytes", [(x, y) for x, y in r[1]]) if r[0] == "ok" else ("rejected", str(r[0]))
     if fam == "for":
         src = "*=0x8000\n.for i := 1 + 2 * 1, 2 << 1 + 1 & 0xff {\n.db i\n}\n"
         r = assemble(src, {})
@@ -312,6 +318,31 @@ def check(spec, cx, out):
             return [("literal-value", z3.BoolVal(False))]
         bs = blist(blocks[0][1])
         return [("literal-value", z3.And(bs[0] == val & 0xFF, bs[1] == (val >> 8) & 0xFF, bs[2] == (val >> 16) & 0xFF, bs[3] == 0x55))]
+    if fam == "named-a":
+        if out[0] != "bytes" or len(out[1]) != 1:
+            return [("operand-named-a-is-the-symbol", z3.BoolVal(False))]
+        bs = blist(out[1][0][1])
+        a = _term(cx, "a")
+        small = a <= 0xFF
+        ops = [(0x06, 0x0E), (0x46, 0x4E), (0x26, 0x2E), (0x66, 0x6E), (0xE6, 0xEE), (0xC6, 0xCE)]
+        # direct-page form (2 bytes) when the value fits a byte, absolute form (3 bytes) otherwise
+        n_small, n_big = 6 * 2 + 2 + 2, 6 * 3 + 2 + 2
+        conds = []
+        if len(bs) == n_small:
+            exp = []
+            for dp, _ab in ops:
+                exp += [B(dp), a & 0xFF]
+            exp += [B(0x06), B(0x34), a & 0xFF, (a >> 8) & 0xFF]
+            conds.append(z3.And(small, *[x == y for x, y in zip(bs, exp)]))
+        elif len(bs) == n_big:
+            exp = []
+            for _dp, ab in ops:
+                exp += [B(ab), a & 0xFF, (a >> 8) & 0xFF]
+            exp += [B(0x06), B(0x34), a & 0xFF, (a >> 8) & 0xFF]
+            conds.append(z3.And(z3.Not(small), *[x == y for x, y in zip(bs, exp)]))
+        else:
+            conds.append(z3.BoolVal(False))
+        return [("operand-named-a-is-the-symbol", z3.And(*conds))]
     if fam == "for":
         # 1 + 2*1 = 3 ; 2 << 1 + 1 & 0xff = (2 << 2) & 0xff = 8  -> bytes 3,4,5,6,7
         ok = out[0] == "bytes" and len(out[1]) == 1 and bytes(out[1][0][1]) == bytes([3, 4, 5, 6, 7])
